@@ -1,7 +1,10 @@
 #!/usr/bin/env python3
 """Run every seeded breakage (seeded/<id>/patch.diff) against the check of its property: apply the patch to /repo's
 working tree, run `./check <PROP> --tier quick`, undo the patch, record the outcome in seeded/<id>/meta.json
-("detection") and regenerate seeded/MATRIX.md.   usage: tools/mutant_matrix.py [ids...] [--also C07]"""
+("detection") and regenerate seeded/MATRIX.md.
+usage: tools/mutant_matrix.py [ids...] [--legs debug] [--matrix-only]
+  --legs L   restrict the legs of the quick check (sets VERIF_LEGS; recorded in the result)
+Mutants listed in TIER run the thorough tier with the named legs instead (changes only an interpreter / sanitizer can see)."""
 import json, os, subprocess, sys, time
 
 VERIF = os.path.dirname(os.path.dirname(os.path.abspath(__file__)))
@@ -14,6 +17,11 @@ def sh(cmd, **kw):
     return subprocess.run(cmd, shell=True, capture_output=True, text=True, **kw)
 
 
+# changes whose only effect is undefined behaviour (no wrong value, no panic): decided by the thorough tier's Miri leg
+TIER = {"C01-e": ("thorough", "miri")}
+LEGS = None
+
+
 def run_one(name, prop):
     d = os.path.join(SEEDED, name)
     if sh("git -C /repo diff --quiet").returncode != 0:
@@ -23,18 +31,28 @@ def run_one(name, prop):
         return {"check": "%s quick" % prop, "applied": False, "note": a.stderr.strip()[:200]}
     t0 = time.time()
     try:
-        r = sh("cd %s && ./check %s --tier quick" % (VERIF, prop), timeout=3600)
+        tier, legs = TIER.get(name, ("quick", LEGS)) if prop == name.split("-")[0] else ("quick", LEGS)
+        env = dict(os.environ)
+        if legs:
+            env["VERIF_LEGS"] = legs
+        r = sh("cd %s && ./check %s --tier %s" % (VERIF, prop, tier), timeout=7200, env=env)
     finally:
         sh("git -C /repo checkout -- .")
     sigs = [l.strip().split(" :: ")[0] for l in r.stderr.splitlines() if l.startswith("  " + prop + "/")]
     nviol = sum(1 for l in r.stdout.splitlines() if l.startswith("VIOLATION"))
-    return {"check": "./check %s --tier quick" % prop, "applied": True, "exit_code": r.returncode, "detected": r.returncode == 1 and nviol > 0,
+    return {"check": "./check %s --tier %s" % (prop, tier) + (" (legs: %s)" % legs if legs else ""), "applied": True, "harness_commit": sh("git -C %s rev-parse --short HEAD" % VERIF).stdout.strip(), "exit_code": r.returncode, "detected": r.returncode == 1 and nviol > 0,
             "new_violation_signatures": nviol, "first_signatures": sigs[:4], "wall_s": round(time.time() - t0, 1),
             "repo_head": sh("git -C /repo rev-parse --short HEAD").stdout.strip(), "seed": int(os.environ.get("VERIF_SEED", "1"))}
 
 
 def main():
-    names = [a for a in sys.argv[1:] if not a.startswith("--")]
+    global LEGS
+    args = sys.argv[1:]
+    if "--legs" in args:
+        i = args.index("--legs")
+        LEGS = args[i + 1]
+        del args[i:i + 2]
+    names = [a for a in args if not a.startswith("--")]
     if not names:
         names = sorted(n for n in os.listdir(SEEDED) if os.path.isdir(os.path.join(SEEDED, n)))
     for name in names:
@@ -61,10 +79,10 @@ def write_matrix():
         notes = open(os.path.join(SEEDED, name, "notes.md")).read().strip().splitlines()
         title = next((l.strip("# ").strip() for l in notes if l.strip()), "")
         for p, res in sorted(meta.get("detection", {}).items()):
-            rows.append("| %s | %s | %s | %s | %s |" % (name, title[:110].replace("|", "/"), p, "caught" if res.get("detected") else ("n/a" if not res.get("applied", True) else "MISSED"),
+            rows.append("| %s | %s | %s | %s | %s |" % (name, title[:110].replace("|", "/"), res.get("check", p).replace("./check ", ""), "caught" if res.get("detected") else ("n/a" if not res.get("applied", True) else "MISSED"),
                                                   (res.get("first_signatures") or [""])[0].replace("|", "/")[:90]))
     with open(os.path.join(SEEDED, "MATRIX.md"), "w") as f:
-        f.write("# Seeded breakages vs. checks (quick tier, seed 1)\n\n| mutant | what it changes | check | result | first signature |\n|---|---|---|---|---|\n")
+        f.write("# Seeded breakages vs. checks (seed 1; the check column says which tier / legs were run)\n\n| mutant | what it changes | check | result | first signature |\n|---|---|---|---|---|\n")
         f.write("\n".join(rows) + "\n")
 
 
